@@ -23,7 +23,7 @@ BOUNDS = {'quick': 'graphs P3, paw, S3 with 3 relabelings each (string labels + 
 ASSUMPTIONS = ['floats as reals', 'L5 (equal vector fields and initial states give equal solutions)', 'relabelling carries initial sets, node lists and weights along']
 OPTS = {'quick': {'max_validate': 0, 'cfg_timeout': 200}, 'thorough': {'max_validate': 0, 'cfg_timeout': 900}}
 VALIDATE = False
-MUST_EVALUATE = {'quick': ['degree-based-identical', 'node-level-equivariant', 'node-level-X0', 'node-level-outputs', 'simulator-histories']}
+MUST_EVALUATE = {'quick': ['degree-based-identical', 'node-level-equivariant', 'node-level-X0', 'node-level-outputs', 'simulator-histories', 'nodelist-order-irrelevant']}
 
 
 def functions():
@@ -57,6 +57,10 @@ def configs(tier):
                     if weighted and (g != 'P3' and tier == 'quick'):
                         continue
                     out.append(dict(family='node', entry=entry, graph=g, relabel=rl, weighted=weighted, tags=['node', entry, g, rl] + (['weighted'] if weighted else [])))
+    # an explicit nodelist in another order than G.nodes(): same dynamics, per-node outputs in nodelist order
+    for g in ['P3', 'paw', 'S3']:
+        for entry in NODE + NODE_PURE:
+            out.append(dict(family='nodelist', entry=entry, graph=g, tags=['nodelist', entry, g]))
     for entry in ('fast_nonMarkov_SIR', 'fast_nonMarkov_SIS', 'discrete_SIR'):
         for g in ('P3', 'K3'):
             for rl in RELABEL:
@@ -335,8 +339,87 @@ def run_sim(h, cfg):
     return None
 
 
+def run_nodelist(h, cfg):
+    """same graph, explicit nodelist reversed: the system handed to the integrator must be the default one up to that permutation"""
+    eng = symx.ENG
+    import EoN
+    eng.div_guard = False
+    try:
+        flow = _install()
+        G = graphs.make(cfg['graph'])
+        n = G.order()
+        nodes = list(G.nodes())
+        nl = list(reversed(nodes))
+        tau = eng.real('tau', lo=0, lo_strict=True)
+        gamma = eng.real('gamma', lo=0, lo_strict=True)
+        entry = cfg['entry']
+        f = getattr(EoN, entry)
+        sir = 'SIR' in entry
+        kw = dict(tmin=0, tmax=2, tcount=3, return_full_data=True)
+        if entry in NODE_PURE:
+            a = [G, tau, gamma, [1]]
+            if sir:
+                kw['initial_recovereds'] = [n - 1]
+        else:
+            kw['rho'] = eng.real('rho', lo=0, hi=1, lo_strict=True, hi_strict=True)
+            a = [G, tau, gamma]
+        r1 = h.call_must_succeed('no-exception', f, *a, **kw)
+        if r1 is None:
+            return None
+        r2 = h.call_must_succeed('no-exception:nodelist', f, *a, nodelist=nl, **kw)
+        if r2 is None:
+            return None
+        c1, c2 = flow.calls[0], flow.calls[1]
+        N = n
+        perm = [nl.index(u) for u in nodes]
+        L = len(c1.X0)
+
+        def cmap(j):
+            if 'pair' in entry:
+                nb = 2 if sir else 1
+                if j < nb * N:
+                    return (j // N) * N + perm[j % N]
+                j2 = j - nb * N
+                blk, rem = j2 // (N * N), j2 % (N * N)
+                a_, b_ = rem // N, rem % N
+                return nb * N + blk * N * N + perm[a_] * N + perm[b_]
+            return (j // N) * N + perm[j % N]
+        if len(c2.X0) != L:
+            h.fail('nodelist-order-irrelevant', {'len': [L, len(c2.X0)]})
+            return None
+        prover = odex.IdProver(list(eng.pc))
+        for j in range(L):
+            ok, m = prover.equal(c1.X0[j], c2.X0[cmap(j)])
+            if not ok:
+                h.record_failure('nodelist-order-irrelevant', {'what': 'X0', 'coord': j, 'default': show(c1.X0[j]), 'reversed_nodelist': show(c2.X0[cmap(j)])}, odex.model_values(m))
+                return None
+        xs = list(c1.out[1])
+        for x in xs:
+            eng.assume(lift(x) > 0)
+        prover = odex.IdProver(list(eng.pc))
+        Px = np.empty(L, dtype=object)
+        for j in range(L):
+            Px[cmap(j)] = xs[j]
+        st1, f1 = h.call(c1.dfunc, np.array(xs, dtype=object), 0, *c1.args)
+        st2, f2 = h.call(c2.dfunc, np.array(list(Px), dtype=object), 0, *c2.args)
+        if st1 == 'exc' or st2 == 'exc':
+            e = f1 if st1 == 'exc' else f2
+            h.fail('nodelist-order-irrelevant:' + type(e).__name__, {'exception': repr(e)[:200]})
+            return None
+        f1, f2 = list(f1), list(f2)
+        for j in range(L):
+            ok, m = prover.equal(f1[j], f2[cmap(j)])
+            if not ok:
+                h.record_failure('nodelist-order-irrelevant', {'what': 'right-hand side', 'coord': j, 'default': show(f1[j])[:150], 'reversed_nodelist': show(f2[cmap(j)])[:150]}, odex.model_values(m))
+                return None
+        h.require('nodelist-order-irrelevant', True)
+        return None
+    finally:
+        eng.div_guard = True
+
+
 def run_path(h, cfg):
-    return {'degree': run_degree, 'node': run_node, 'sim': run_sim}[cfg['family']](h, cfg)
+    return {'degree': run_degree, 'node': run_node, 'sim': run_sim, 'nodelist': run_nodelist}[cfg['family']](h, cfg)
 
 
 def _num(values, k, default):
@@ -351,6 +434,37 @@ def replay_concrete(cfg, kind, values, decisions):
     """numeric replay on the real code (real integrator): same call on G and on the relabelled G'"""
     if cfg['family'] == 'sim':
         return None       # default replay (exact rationals through the real simulator)
+    if cfg['family'] == 'nodelist':
+        import EoN
+        import EoN.analytic as an
+        odex.uninstall(an)
+        G = graphs.make(cfg['graph'])
+        nodes = list(G.nodes())
+        nl = list(reversed(nodes))
+        tau, gamma, rho = _num(values, 'tau', 1.1), _num(values, 'gamma', 0.7), _num(values, 'rho', 0.3)
+        entry = cfg['entry']
+        f = getattr(EoN, entry)
+        kw = dict(tmin=0, tmax=3, tcount=7, return_full_data=True)
+        a = [G, tau, gamma]
+        if entry in NODE_PURE:
+            a.append([1])
+            if 'SIR' in entry:
+                kw['initial_recovereds'] = [G.order() - 1]
+        else:
+            kw['rho'] = rho
+        r1 = f(*a, **kw)
+        try:
+            r2 = f(*a, nodelist=nl, **kw)
+        except Exception as e:
+            return {'reproduced': True, 'concrete_detail': {'exception_with_nodelist': repr(e)[:200]}}
+        worst = 0.0
+        for x, y in zip(r1[1:], r2[1:]):
+            A, B = np.asarray(x, dtype=float), np.asarray(y, dtype=float)
+            if A.ndim == 1:
+                worst = max(worst, float(np.nanmax(np.abs(A - B))))
+            elif A.ndim == 2 and A.shape[0] == len(nodes):
+                worst = max(worst, float(np.nanmax(np.abs(A - B[::-1]))))
+        return {'reproduced': worst > 1e-6, 'concrete_detail': {'max_abs_difference_default_vs_reversed_nodelist': worst}, 'how': 'real code, real integrator'}
     import EoN
     import EoN.analytic as an
     odex.uninstall(an)
